@@ -14,7 +14,7 @@ for f in known_findings.txt MANIFEST.json check setup.sh; do
 done
 for f in $(git status --short | grep '^UU evidence/\|^AA evidence/' | awk '{print $2}'); do git checkout --theirs $f; git add $f; done
 git status --short | grep '^U\|^AA' && echo "MERGE CONFLICTS REMAIN"
-python3 tools/mkfindings.py >/dev/null; python3 tools/mkmanifest.py
+./tools/pkgsplit.sh >/dev/null; python3 tools/mkfindings.py >/dev/null; python3 tools/mkmanifest.py
 git add -A
 git -c core.editor=true commit -qm "Merge ag-$WS" 2>&1 | tail -2
 # rewrite fix-commit hashes of the builder's branch to the cherry-picked ones on /repo main
